@@ -110,7 +110,7 @@ FLOORS = {
                  "not_fired_checks": 14000, "gethost_compared": 500, "stop_checked": 500, "leak_checks_after_failure": 3500,
                  "failure_errors_compared": 3000, "refusals_before_start_checked": 10, "fault:close-on-line": 1200,
                  "fault:close-after-reply": 1200, "fault:reject": 300, "fault:uploads-failed": 450, "fault:bind": 250, "fault:config": 100,
-                 "random_cases": 1500,
+                 "random_cases": 4000,
                  "route:ctor": 400, "route:tor": 300, "route:str-system": 300, "route:str-global": 100,
                  "reach:txtorcon.endpoints:TCPHiddenServiceEndpoint.listen": 4500,
                  "reach:txtorcon.endpoints:TorOnionListeningPort.stopListening": 500,
@@ -1305,14 +1305,14 @@ def plan(tier, seed):
     name = "configuration cells x routes x fault points (every command line of the dialogue as a disconnect point)"
     if tier == "quick":
         for i in range(13):
-            specs.append({"mode": "enumerate", "part": i, "parts": 13, "max_lines": True, "stride": 4, "name": name})
+            specs.append({"mode": "enumerate", "part": i, "parts": 13, "max_lines": True, "stride": 5, "name": name})
         specs.append({"mode": "invalid", "name": "invalid option combinations declared by __init__ / parseStreamServer x routes"})
         for i in range(2):
-            specs.append({"mode": "random", "n": 400})
+            specs.append({"mode": "random", "n": 300})
     else:
         for i in range(32):
             specs.append({"mode": "enumerate", "part": i, "parts": 32, "name": name, "timeout_s": 3000})
         specs.append({"mode": "invalid", "name": "invalid option combinations declared by __init__ / parseStreamServer x routes"})
-        for i in range(8):
-            specs.append({"mode": "random", "n": 2500, "timeout_s": 3000})
+        for i in range(12):
+            specs.append({"mode": "random", "n": 4000, "timeout_s": 3000})
     return specs
